@@ -383,6 +383,75 @@ def c11(ctx):
     ctx.exhaustive = True
 
 
+# ---------------------------------------------------------------------------------------------
+# Parser: C07 (ParserRules), C03 (SelfCert)
+
+def flip_accept(rec):
+    rec["accept"] = not rec["accept"]
+
+
+def corrupt_parse(ev):
+    ev = json.loads(json.dumps(ev))
+    ev["accepted"] = not ev["accepted"]
+    return ev
+
+
+def c07(ctx):
+    ctx.rule = ("ParserRules.tla: ParseAccept(request, configuration) is the conjunction of the property statement over "
+                "the shared operation vocabulary (Ops.tla: every well-formedness defect, reveal mismatch, delta defects, "
+                "signed-suffix mismatch, equal / reused commitments, all key types and hash algorithms) and a "
+                "configuration given RELATIVE to the concrete request: maximum operation size, delta size and hash "
+                "length each at actual-1 / actual / actual+1, algorithm lists with / without / in either order, "
+                "enabled-patch list with / without the used actions, allowed signature and key algorithms with / "
+                "without the used one, nonce size matching or not. TLC enumerates every case with <= MaxDev deviations "
+                "(request + configuration) and checks DefaultsAccepted / BoundariesInclusive; the harness builds real "
+                "signed requests sized exactly at each boundary, runs Parser.Parse and compares the verdict and, for "
+                "accepted requests, type, unique suffix (reference hash), namespaced id, original bytes and anchor "
+                "origin. Random (request, configuration) pairs with any number of deviations are then validated by TLC.")
+    ctx.assumptions = APPLIER_ASSUME[:2] + [
+        "the parser does not verify signatures and does not compare the signed delta hash of update / recover with "
+        "the delta (the applier does): such requests are in the alphabet and must be ACCEPTED",
+        "'next commitments differ from the current key's' is tested as: create/recover upd = rec, recover rec = "
+        "commitment(recovery key), update upd = commitment(update key)"]
+    kt = kts_for(ctx, 1)[0]
+    md = 1 if ctx.tier == "quick" else 2
+    _, summ = ctx.tlc_pipe("MC_ParserRules.tla", "MC_ParserRules.cfg", ["parser-replay"],
+                           overrides={"MaxDev": md, "DefKT": q(kt)}, workers=4,
+                           label="requests x relative configurations, <= %d deviations" % md, timeout=3000)
+    if summ["extra"]["accepted"] < 20:
+        raise Infra("vacuous: hardly any request accepted")
+    ctx.negctl_replay(["parser-replay"], summ["_first_edge"], flip_accept)
+    n = 4000 if ctx.tier == "quick" else 60000
+    validate_trace(ctx, "parser", ["-n", str(n)], "ParserRulesTrace.tla", "ParserRulesTrace.cfg",
+                   "parser_trace.ndjson", histories=n, corrupt=corrupt_parse,
+                   key_of=lambda ev: applier_opkey(ev) + "|" + json.dumps(ev.get("cfg"), sort_keys=True))
+    ctx.exhaustive = True
+
+
+def c03(ctx):
+    ctx.rule = ("SelfCert.tla over Hash.tla (ideal hash): create requests with each of the eight patch actions and a "
+                "mixed delta, anchor origin absent / string / object, type absent / present, hashes computed with "
+                "SHA-256 or SHA-512 under every configured algorithm list containing it (4 lists), crossed with 12 "
+                "labelled changes: three re-serializations (member order, whitespace, \\u escapes in member names and "
+                "strings) and a modification of each suffix-data member (delta hash, recovery commitment, anchor "
+                "origin, type: changed / added / removed) and of the delta (update commitment, patch content, patch "
+                "added, patch removed). TLC checks SelfCertifying and SuffixInjective on the model and prints the "
+                "expected (accepted, same DID) pair; the harness builds the bytes, parses base and changed request "
+                "with the real parser, evaluates the suffix term with reference SHA-2 / multihash / JCS and compares.")
+    ctx.assumptions = APPLIER_ASSUME[:1] + [
+        "adding a member the request model does not define is not in the catalogue (the parser ignores it; the "
+        "statement speaks of the parts of suffix data and delta)"]
+    _, summ = ctx.tlc_pipe("MC_SelfCert.tla", "MC_SelfCert.cfg", ["selfcert-replay"], workers=4,
+                           label="create requests x re-serializations / single-member modifications")
+
+    def wrong(rec):
+        rec["expected"]["sameDID"] = not rec["expected"]["sameDID"]
+        rec["expected"]["accepted"] = True
+
+    ctx.negctl_replay(["selfcert-replay"], summ["_first_edge"], wrong)
+    ctx.exhaustive = True
+
+
 def replay(path):
     """re-execute exactly the case of a replay file against the current tree"""
     m = json.load(open(path))
@@ -445,6 +514,8 @@ def c12(ctx):
 CHECKS = {
     "C01": c01,
     "C02": c02,
+    "C03": c03,
+    "C07": c07,
     "C09": c09,
     "C10": c10,
     "C11": c11,
